@@ -43,8 +43,7 @@ def valueGlobals : List Str := [
   ['-', '-', 'w', 'o', 'r', 'k', '-', 't', 'r', 'e', 'e'],
   ['-', '-', 'n', 'a', 'm', 'e', 's', 'p', 'a', 'c', 'e'],
   ['-', '-', 's', 'u', 'p', 'e', 'r', '-', 'p', 'r', 'e', 'f', 'i', 'x'],
-  ['-', '-', 'c', 'o', 'n', 'f', 'i', 'g', '-', 'e', 'n', 'v'],
-  ['-', '-', 'e', 'x', 'e', 'c', '-', 'p', 'a', 't', 'h']]
+  ['-', '-', 'c', 'o', 'n', 'f', 'i', 'g', '-', 'e', 'n', 'v']]
 /-- sub-commands that never write a ref, the index, the working tree or run a hook (git kernel fact, validated end to end) -/
 def readOnlySubs : List Str := [
   ['r', 'e', 'v', '-', 'p', 'a', 'r', 's', 'e'],
